@@ -25,6 +25,12 @@ def add_candidate(x):
     _store(c)["candidates"].append(_np.asarray(x))
 
 
+def configure(**kw):
+    """Opt-in switches of the oracles for the current context (e.g. inv_exact_1x1=True)."""
+    c = _ctx.current()
+    _store(c).setdefault("cfg", {}).update(kw)
+
+
 def clear_candidates():
     c = _ctx.current()
     _store(c)["candidates"] = []
@@ -176,6 +182,13 @@ def linalg_inv(a):
     a = _np.asarray(a)
     n = a.shape[0]
     st = _store(c)
+    if a.shape == (1, 1) and st.get("cfg", {}).get("inv_exact_1x1"):
+        # opt-in (configure(inv_exact_1x1=True)): the inverse of a 1x1 matrix is the exact reciprocal of its entry
+        # (division guarded non-zero like every division) - no fresh symbols, no side constraints
+        c.stubs.add("numpy.linalg.inv of a 1x1 matrix (exact reciprocal)")
+        out = _np.empty((1, 1), dtype=object)
+        out[0, 0] = 1 / a[0, 0]
+        return wrap(out)
     I = _np.empty((n, n), dtype=object)
     for i in range(n):
         for j in range(n):
